@@ -1,5 +1,6 @@
 import CarModel.Driver.Idx
 import CarModel.Spec
+import CarModel.Resume
 /- Families `open/put/many/has/get/size/keys/roots/finalize/finro/close/discard/file` — C04, C05, C20. -/
 namespace Car.Driver
 
@@ -63,5 +64,21 @@ def famOp (se : Sess) (fam : String) (kv : KV) : Sess × String × String :=
       let rs := Spec.step se.o se.s op
       let sortC := match op with | .allKeys => true | _ => false
       ({ se with m := rm.1, s := rs.1 }, "r=" ++ outStr sortC rm.2.1, "r=" ++ outStr sortC rs.2)
+
+/-- `reopen`: OpenReadWrite / OpenReadableWritable on the session's current file. -/
+def famReopen (se : Sess) (kv : KV) : Sess × String × String :=
+  let o := wopts kv
+  let roots := parseRoots (KV.getD kv "roots" "nil")
+  let api := if KV.getD kv "api" "bs" == "st" then Api.storage else Api.blockstore
+  let rr := resume api o roots se.m.file
+  -- specification: accepted iff same container version, same data padding, same roots up to order
+  let okSpec := o.v1 == se.o.v1 && (o.v1 || o.dataPad == se.o.dataPad) &&
+    rootsMatch se.s.roots (roots.getD [])
+  let s' : Spec.State := if okSpec then { se.s with closed := false, finalized := false, api := api } else se.s
+  match rr.res with
+  | .ok st =>
+    ({ se with o := o, m := st, s := s' }, "r=ok", if okSpec then "r=ok" else "r=!ok")
+  | .error _ =>
+    ({ se with m := { se.m with file := rr.file }, s := s' }, "r=err", if okSpec then "r=ok" else "r=!ok")
 
 end Car.Driver
